@@ -6,7 +6,7 @@
    digest hi of the increments it is given) and injects the faults of the plan.  The driver groups the calls
    of one attempt (same t, dt) and merges them with the rows of the result file (@OutputFrequency
    'EveryPeriod'), in order:
-     Run(times, maxsub, dyn, mindt)      one MTest run begins (several runs are concatenated in one trace)
+     Run(times, maxsub, dyn, mindt, maxdt)    one MTest run begins (several runs are concatenated in one trace)
      Attempt(t, dt, out, n, d, hb, hi, ref, rb, ri)
                                          out = "ok" | "fail" | "reject" (with factor n/d) as decided by the probe;
                                          hb / hi = digests at the first call of the attempt;
@@ -39,7 +39,7 @@ EvoAt(ev, tt) == IF ev[1] = "lpi" THEN Lpi(ev[2], tt) ELSE ev[2] + ev[3] * tt
 Loaded(e, tt) == CheckLoadings => \A i \in 1..Len(evo) : e.imp[i][2] = 1 /\ e.imp[i][1] = EvoAt(evo[i], tt)
 Same(e) == CheckDigests => e.same = 1
 
-ConfOf(e) == [times |-> e.times, maxsub |-> e.maxsub, dyn |-> (e.dyn = 1), mindt |-> e.mindt]
+ConfOf(e) == [times |-> e.times, maxsub |-> e.maxsub, dyn |-> (e.dyn = 1), mindt |-> e.mindt, maxdt |-> e.maxdt]
 TraceInit == /\ l = 1 /\ Tr[1].e = "Run" /\ hbcur = <<>> /\ evo = Tr[1].evo
              /\ cf = ConfOf(Tr[1])
              /\ k = 1 /\ t = cf.times[1] /\ dt = 0 /\ sub = 0 /\ pc = "begin" /\ out = <<"ok">>
